@@ -223,11 +223,11 @@ class FaultCheck:
             v = ex.decide([(0, True), (1, True), (2, True), (3, True)])
             return list([A + b'B?', A + b'Q', b'*R?', b'*Q'][v]), None, None, None
         if k == 'extra-parameter':
-            v = ex.decide([(0, True), (1, True), (2, True)])
-            return list([A + b'B 1', b':U? 1,2', b'*R 1'][v]), None, None, None
+            v = ex.decide([(0, True), (1, True), (2, True), (3, True)])
+            return list([A + b'B 1', b':U? 1,2', b'*R 1', b':W 0,1,2,3,4,5,6,7,8,9,10'][v]), None, None, None
         if k == 'missing-parameter':
-            v = ex.decide([(0, True), (1, True)])
-            return list([A + b'K', b':U?'][v]), None, None, None
+            v = ex.decide([(0, True), (1, True), (2, True)])
+            return list([A + b'K', b':U?', b':W 1,2,3,4,5,6,7,8,9'][v]), None, None, None
         if k == 'wrong-kind':
             v = ex.decide([(0, True), (1, True), (2, True)])
             return list([b':U? "x"', A + b'S 5', A + b'K 5'][v]), None, None, None
@@ -297,7 +297,7 @@ class FaultCheck:
         if s.entry == 'run':
             dev, out, extra = execute(w, s.dev, 'run', stream, script=script)
         else:
-            dev, out, extra = execute(w, s.dev, 'process', stream, n=32, script=script, tail=s.chunk)
+            dev, out, extra = execute(w, s.dev, 'process', stream, n=64, script=script, tail=s.chunk)
         ev = events_of(dev)
         # admissible event sequences
         head = ([('call', 3)] if pre else []) + [('call', c) for _, c in before]
